@@ -1112,6 +1112,8 @@ class SymCtx:
             if not extra and ex.second_budget > 0 and r in ("sat", "unsat") and not z3.is_true(z3.simplify(c)):
                 ex.second_budget -= 1
                 ex.cross_check(z3.Not(c), r, label)
+                if r == "sat":
+                    r = ex._check(z3.Not(c), *extra)      # the export (push/pop) discarded the model: decide again to have one
             if r == "sat" and ex.exact_defs:
                 r = ex._check(z3.Not(c), *(extra + ex.exact_defs))      # refine: the abstraction of a/b made exact
             if r == "unsat":
